@@ -2511,8 +2511,15 @@ class CompressedCertificate(Certificate):
 
         try:
             if self.compression_algo == CertificateCompressionAlgorithm.zlib:
-                decompressed_msg = zlib.decompress(
-                    compressed_msg, 15, expected_length)
+                # the third argument of zlib.decompress() is only the
+                # initial buffer size; a real limit needs decompressobj
+                if not expected_length:
+                    raise ValueError("empty message")
+                decompressor = zlib.decompressobj(15)
+                decompressed_msg = decompressor.decompress(
+                    compressed_msg, expected_length)
+                if decompressor.unconsumed_tail:
+                    raise ValueError("message longer than declared")
             elif self.compression_algo == \
                     CertificateCompressionAlgorithm.brotli:
                 if compression_algo_impls["brotli_accepts_limit"]:
